@@ -1007,7 +1007,7 @@ static bool run_case(uint64_t c) {
     opt.max_depth = s_opt_depth;
     opt.on_root_encountered = on_node;
     opt.user_data = &s_frames[0];
-    aws_reset_error();
+    mon_poison_last_error(&mon_case_rng);
     int rc = aws_xml_parse(mon_guard_allocator(), &opt);
     int err = rc ? aws_last_error() : 0;
     mon_guard_stats(&st1);
